@@ -281,7 +281,17 @@ func genCase(t *rapid.T) Case {
 			ex := model.ExpandMethod(c.Regs[rapid.IntRange(0, len(c.Regs)-1).Draw(t, "mr")].M)
 			m = ex[rapid.IntRange(0, len(ex)-1).Draw(t, "mi")]
 		}
-		q := QReq{M: strconv.QuoteToASCII(m), P: strconv.QuoteToASCII(genPath(t, c.Regs))}
+		pth := genPath(t, c.Regs)
+		if len(c.Regs) > 0 && rapid.IntRange(0, 9).Draw(t, "keysplit") == 0 {
+			// method and path are two strings, not one: split "<METHOD><path>" of
+			// a registered static-looking route somewhere else
+			g := c.Regs[rapid.IntRange(0, len(c.Regs)-1).Draw(t, "ks")]
+			ms := model.ExpandMethod(g.M)
+			joined := ms[rapid.IntRange(0, len(ms)-1).Draw(t, "ksm")] + "/" + strings.Join(gen.Instance(t, rt.Deriv(g.R), false), "/")
+			k := rapid.IntRange(0, len(joined)).Draw(t, "ksk")
+			m, pth = joined[:k], joined[k:]
+		}
+		q := QReq{M: strconv.QuoteToASCII(m), P: strconv.QuoteToASCII(pth)}
 		switch rapid.IntRange(0, 5).Draw(t, "hk") { // 5 = an empty, non-nil header map
 		case 0:
 			q.NH = true
